@@ -30,6 +30,21 @@ Hardening pass (blind-spot classes of HARDENING.md).  The primitive contracts sn
                         (keys carry /precision=32, /after-precision-32)
   D regimes             hexagonal apertures with 4..6 (thorough ..9) rings, keystones with 4..5 (..8) rings, polygons with 13..128
                         sides, grids with aspect ratios up to 1:37 (thorough 1:250)
+
+Hardening pass 2 (HARDENING2.md).
+  E argument forms      every form of an argument the current tree accepts as the same input gives the aperture / mask of the
+                        canonical form (tables *_FORMS, FORMS_NOTE): exclude as tuple / list / range / ndarray of four dtypes /
+                        set / frozenset / dict keys / list of numpy ints, sorted and unsorted, for six classes of exclusion set
+                        (ring ids only, centre + ring, outer ring, contiguous, single, all-but-one); rings / diameters / gaps /
+                        angles of both aperture classes as python and numpy scalars; segments_per_ring, ring_radius,
+                        rotation_per_ring as scalar / list / tuple / ndarray / list of numpy scalars / list of None; keyword vs
+                        positional; omitted vs explicit defaults (after a call with other values); grids F-ordered / strided /
+                        read-only / float32; per-ring lists re-used by a second constructor; primitives with sizes, side and
+                        vane counts, centres and angles in every scalar / container form, angles at every multiple of 45 degrees
+                        in [-720, 720] and angle +- 360
+  F foreign traffic     other consumers of cart_to_polar / polar_to_cart / optimize_xy_separable / make_xy_grid / config.precision
+                        run first (returned grids edited in place, precision 32, polynomial bases on the same grid objects), then
+                        the primitives and one aperture of each family are judged
 """
 import inspect
 import math
@@ -50,7 +65,12 @@ RULE = ('primitives: grid class (odd/even, square/non-square, several samplings)
         'Hardening workloads: coordinate forms (4 memory layouts x float64/float32/int64 coordinates x 7 primitives, every call '
         'twice on the same array objects); OPD histories (5 sequence kinds x 2..7 cycles x hex/keystone x 6 coefficient containers); '
         'aperture arguments (grid arrays re-used by two constructors, coefficient containers / dtypes / repeats); configuration '
-        '(precision 32 then 64); regimes (rings >= 4, sides > 12, aspect ratios up to 1:250)')
+        '(precision 32 then 64); regimes (rings >= 4, sides > 12, aspect ratios up to 1:250).  Argument forms (hardening pass 2): '
+        'exclude in 13 container forms x 6 exclusion-set classes x rings 1..3(4) x both orientations; 20 scalar / call-syntax / '
+        'grid-layout forms of the hexagonal constructor and ~45 of the keystone constructor (per-ring arguments as scalar / list / '
+        'tuple / ndarray / numpy scalars / None lists, lists re-used by a second constructor); primitives: every multiple of 45 '
+        'degrees in [-720, 720] in 6 scalar forms and +-360, sizes / counts / centres in every scalar and container form; '
+        'foreign-traffic preludes (3 kinds) on the very grid that is judged afterwards')
 ASSUMPTIONS = ['size conventions measured on the pinned tree: circle/annulus radius, polygon circumradius, rectangle half-width / '
                'half-height, ellipse semi-axes, spider full vane width; the statement does not fix a rotation sense, either is '
                'accepted but it must not change during a run',
@@ -72,7 +92,14 @@ ASSUMPTIONS = ['size conventions measured on the pinned tree: circle/annulus rad
                'boundary band 1e-3*size while config.precision is 32 (regular_polygon vertices are float32 then, measured '
                'displacement <= 1e-6*size) and >= 1e-4*extent for float32 coordinate arrays; masks of the same shape computed from '
                'coordinates in another layout / dtype are compared except on samples touching the rasterised edge',
-               'compose_opd(..., out=zeros) must equal compose_opd(...) (out is documented as the array the OPD is inserted into)']
+               'compose_opd(..., out=zeros) must equal compose_opd(...) (out is documented as the array the OPD is inserted into)',
+               'argument forms (FORMS_NOTE): "every exclusion set" is read as every collection of segment ids the constructor accepts '
+               'today (tuple, list, range, ndarray, set, frozenset, dict keys view, numpy integers), in any order; all_centers[k] is the '
+               'centre of segment_ids[k] (the how-to notebooks zip the two lists); float32 scalars / grids may move vertex arithmetic to '
+               'single precision, so those forms are compared off the rasterised edge of every segment; values used for float32 forms are '
+               'exactly representable in float32',
+               'grids returned by cart_to_polar / polar_to_cart / make_xy_grid / optimize_xy_separable belong to the caller: editing them '
+               'in place must not change later masks']
 REQUIRED = ['circle.membership', 'annulus.membership', 'regular_polygon.membership', 'rectangle.membership',
             'rotated_ellipse.membership', 'spider.membership', 'offset_circle.membership',
             'primitive.monotone', 'primitive.symmetry',
@@ -84,7 +111,8 @@ REQUIRED = ['circle.membership', 'annulus.membership', 'regular_polygon.membersh
             'keystone.opd-history', 'keystone.opd-vs-fresh-aperture', 'keystone.opd-out-keyword', 'hex.grid-arrays-reused',
             'keystone.grid-arrays-reused', 'hex.coef-forms', 'hex.coef-repeat', 'keystone.coef-forms', 'keystone.coef-repeat',
             'precision32.cases', 'precision32-then-64.cases', 'regime.hex-rings>=4', 'regime.keystone-rings>=4',
-            'regime.polygon-sides>12', 'regime.aspect']
+            'regime.polygon-sides>12', 'regime.aspect',
+            'form.hex-exclude', 'form.hex-args', 'form.keystone-args', 'form.angle', 'form.primitive-args', 'foreign.cases']
 
 CTX = None
 SENSE = {}
@@ -1587,6 +1615,684 @@ def _run_regimes(ctx):
                     _primitive_case(ctx, g, r, prim, x, y, n0, n1, dx, half, base)
 
 
+# =========================================================================================== class E: argument forms
+FORMS_NOTE = ('accepted forms established by running the current tree (/repo @ faa8443): exclude as tuple / list / range / ndarray '
+              '(int64, int32, uint8, float64) / set / frozenset / dict keys view / list of numpy integers, in any order, all give '
+              'the aperture of the sorted tuple; a generator is consumed by the centre-segment test and None / a bare int raise: out '
+              'of domain.  Keystone: segments_per_ring int / numpy int / list / tuple / ndarray / range; ring_radius float / numpy '
+              'float / list / tuple / ndarray; rotation_per_ring None / int / float / numpy float / list / tuple / ndarray / list of '
+              'None; radial_gap, azimuthal_gap, center_circle_diameter python or numpy scalars (a list for a gap raises today: out '
+              'of domain; so does a 0-d array for ring_radius).  Primitives: sizes as python int / float, numpy float64 / float32 / '
+              '0-d array; sides / vanes as numpy integers; angles as int / float / numpy scalars at every multiple of 45 degrees in '
+              '[-720, 720]; centres as tuple / list / ndarray / tuple of numpy scalars; 1-D x, y only for offset_circle (its docstring '
+              'does not ask for 2-D arrays and it returns the outer grid); regular_polygon / spider raise for 1-D input')
+EXCLUDE_FORMS = ['tuple', 'list', 'tuple-unsorted', 'ndarray-int64', 'ndarray-int32', 'ndarray-uint8', 'ndarray-float64',
+                 'ndarray-unsorted', 'set', 'frozenset', 'dict-keys', 'list-of-numpy-ints', 'range']
+HASH_CONTAINERS = ('set', 'frozenset', 'dict-keys')
+SCALAR_FORMS = ['python-float', 'numpy-float64', 'numpy-float32', '0d-float64']
+INT_FORMS = ['python-int', 'numpy-int64', 'numpy-int32', 'numpy-uint8']
+SEQ_FORMS = ['list', 'tuple', 'ndarray', 'list-of-numpy-scalars']
+
+
+def exclude_form(ex, form, r):
+    ex = sorted(int(v) for v in ex)
+    sh_ = list(ex)
+    if len(sh_) > 1:
+        sh_ = [sh_[i] for i in r.permutation(len(sh_))]
+        if sh_ == ex:
+            sh_ = sh_[::-1]
+    if form == 'tuple':
+        return tuple(ex)
+    if form == 'list':
+        return list(ex)
+    if form == 'tuple-unsorted':
+        return tuple(sh_)
+    if form.startswith('ndarray-') and form != 'ndarray-unsorted':
+        return np.array(ex, dtype=form.split('-')[1])
+    if form == 'ndarray-unsorted':
+        return np.array(sh_, dtype=int)
+    if form == 'set':
+        return set(sh_)
+    if form == 'frozenset':
+        return frozenset(sh_)
+    if form == 'dict-keys':
+        return {v: None for v in sh_}.keys()
+    if form == 'list-of-numpy-ints':
+        return [[np.int64, np.int32, np.uint8, np.intp][i % 4](v) for i, v in enumerate(ex)]
+    if form == 'range':
+        return range(ex[0], ex[-1] + 1) if ex and ex == list(range(ex[0], ex[-1] + 1)) else None
+    raise ValueError(form)
+
+
+def scalar_form(v, form):
+    if form == 'python-float':
+        return float(v)
+    if form == 'numpy-float64':
+        return np.float64(v)
+    if form == 'numpy-float32':
+        return np.float32(v)
+    if form == '0d-float64':
+        return np.array(float(v))
+    if form == 'python-int':
+        return int(v)
+    if form == 'numpy-int64':
+        return np.int64(v)
+    if form == 'numpy-int32':
+        return np.int32(v)
+    if form == 'numpy-uint8':
+        return np.uint8(v)
+    raise ValueError(form)
+
+
+def seq_form(vals, form):
+    if form == 'list':
+        return list(vals)
+    if form == 'tuple':
+        return tuple(vals)
+    if form == 'ndarray':
+        return np.array(vals)
+    if form == 'list-of-numpy-scalars':
+        return [np.asarray(v)[()] for v in vals]
+    if form == 'range':
+        return vals
+    raise ValueError(form)
+
+
+def snap(v, dx=1 / 64):
+    """A value that float32 holds exactly (multiples of 1/64 below 2**17)."""
+    return max(1, round(float(v) / dx)) * dx
+
+
+def _segment_edges(amp, windows, masks):
+    """Samples touching the rasterised edge of amp or of any single segment (a gap narrower than one sample leaves no
+    transition in amp, but the segments on either side still end there)."""
+    band = _edge_band(amp)
+    for w, m in zip(windows, masks):
+        m = np.asarray(m) != 0
+        if m.size:
+            band[w] |= _edge_band(np.pad(m, 1))[1:-1, 1:-1]
+    return band
+
+
+def _same_hex(ctx, monitor, ap, ref, key, what, desc, band_only=False):
+    """Two hexagonal apertures are the same segmentation: ids, windows, per-segment masks, amp."""
+    ctx.observe(monitor)
+    ids, ids0 = [int(i) for i in ap.segment_ids], [int(i) for i in ref.segment_ids]
+    if ids != ids0 or len(ap.windows) != len(ref.windows) or len(ap.local_masks) != len(ref.local_masks):
+        ctx.violation(key, what + ' (segment ids / number of segments differ)', desc, got=ids[:24], want=ids0[:24],
+                      n_windows=len(ap.windows), n_masks=len(ap.local_masks))
+        return False
+    a, a0 = np.asarray(ap.amp) != 0, np.asarray(ref.amp) != 0
+    if a.shape != a0.shape:
+        ctx.violation(key, what + ' (amp has another shape)', desc)
+        return False
+    band = _segment_edges(a0, ref.windows, ref.local_masks) if band_only else np.zeros(a0.shape, dtype=bool)
+    bad = int(((a != a0) & ~band).sum())
+    if not band_only:
+        for w, w0, m, m0 in zip(ap.windows, ref.windows, ap.local_masks, ref.local_masks):
+            if w != w0 or not np.array_equal(np.asarray(m), np.asarray(m0)):
+                bad += 1
+    if bad:
+        ctx.violation(key, what + ' (amp / a segment window / a segment mask differs)', desc, differing=bad)
+        return False
+    return True
+
+
+def _same_keystone(ctx, monitor, ap, ref, key, what, desc, band_only=False):
+    ctx.observe(monitor)
+    ids, ids0 = [int(i) for i in ap.segment_ids], [int(i) for i in ref.segment_ids]
+    if ids != ids0 or len(ap.segment_windows) != len(ref.segment_windows) or len(ap.segment_masks) != len(ref.segment_masks):
+        ctx.violation(key, what + ' (segment ids / number of segments differ)', desc, got=len(ids), want=len(ids0))
+        return False
+    a, a0 = np.asarray(ap.amp) != 0, np.asarray(ref.amp) != 0
+    band = (_segment_edges(a0, [ref.center_window] + list(ref.segment_windows), [ref.center_mask] + list(ref.segment_masks))
+            if band_only else np.zeros(a0.shape, dtype=bool))
+    bad = int(((a != a0) & ~band).sum()) if a.shape == a0.shape else 1
+    if not band_only and not bad:
+        for w, w0, m, m0 in zip([ap.center_window] + list(ap.segment_windows), [ref.center_window] + list(ref.segment_windows),
+                                [ap.center_mask] + list(ap.segment_masks), [ref.center_mask] + list(ref.segment_masks)):
+            if w != w0 or not np.array_equal(np.asarray(m), np.asarray(m0)):
+                bad += 1
+    if bad:
+        ctx.violation(key, what + ' (amp / a segment window / a segment mask differs)', desc, differing=bad)
+        return False
+    return True
+
+
+def _run_forms(ctx):
+    from prysm import geometry as g
+    from prysm.segmented import CompositeHexagonalAperture as Hex, CompositeKeystoneAperture as Key
+    rng = ctx.rng('c18-forms')
+    with driving(ctx, wl='forms'):
+        _forms_hex(ctx, Hex, rng)
+        _forms_keystone(ctx, Key, rng)
+        _forms_primitives(ctx, g, rng)
+
+
+def _forms_hex(ctx, Hex, rng):
+    grids = [(64, 64), (65, 65), (96, 97), (81, 64)] + ([] if ctx.quick else [(128, 128), (129, 160), (200, 201), (257, 257)])
+    ecls_all = ['ring-ids', 'centre+ring', 'outer-ring', 'contiguous', 'single-ring-id', 'all-but-one']
+    k = -1
+    for rep in range(ctx.pick(1, 12)):
+        for gi, (n0, n1) in enumerate(grids):
+            for rings in (1, 2, 3) if ctx.quick else (1, 2, 3, 4):
+                for ei, ecls in enumerate(ecls_all):
+                    k += 1
+                    sub = ctx.subseed(rng)
+                    if not ctx.mine(k):
+                        continue
+                    if ctx.quick and (gi + rings + ei) % 2:
+                        continue
+                    r = np.random.default_rng(sub)
+                    dx = [1 / 8, 1 / 32, 1 / 4][int(r.integers(3))]
+                    fill = float(r.uniform(0.6, 0.97))
+                    gap = snap(float(r.uniform(0.5, 3.0)) * dx, dx / 8)
+                    d = snap(fill * (min(n0, n1) * dx) / (2 * rings + 1) - gap, dx / 8)
+                    if d < 6 * dx:
+                        ctx.skip('hex: segment smaller than 6 samples for this grid/ring count (not generated)')
+                        continue
+                    total = sh.hex_count(rings)
+                    ring_ids = list(range(1, total))
+                    if ecls == 'ring-ids':
+                        ex = sorted(int(v) for v in r.choice(ring_ids, size=int(r.integers(1, max(2, len(ring_ids) // 2))), replace=False))
+                    elif ecls == 'centre+ring':
+                        ex = [0] + sorted(int(v) for v in r.choice(ring_ids, size=int(r.integers(1, max(2, len(ring_ids) // 2))), replace=False))
+                    elif ecls == 'outer-ring':
+                        ex = list(range(sh.hex_count(rings - 1), total))
+                        ex = ex[:: int(r.integers(1, 3))]
+                    elif ecls == 'contiguous':
+                        lo = int(r.integers(0, total - 1))
+                        ex = list(range(lo, min(total, lo + int(r.integers(1, 6)))))
+                    elif ecls == 'single-ring-id':
+                        ex = [int(r.integers(1, total))]
+                    else:
+                        keep = int(r.integers(total))
+                        ex = [i for i in range(total) if i != keep]
+                    angle = [90, 0][k % 2]
+                    x, y = grid(n0, n1, dx)
+                    desc = {'wl': 'form-hex', 'grid': (n0, n1), 'dx': dx, 'rings': rings, 'segment_diameter': d, 'segment_separation': gap,
+                            'segment_angle': angle, 'exclude': ex, 'seed': sub, 'class': f'form:hex:exclude:{ecls}:rings={rings}'}
+                    ctx.case(desc)
+                    ref = None
+                    with ctx.guard('C18/hex/form:exclude=tuple', desc):
+                        ref = Hex(x, y, rings, d, gap, segment_angle=angle, exclude=tuple(ex))
+                    if ref is None:
+                        continue
+                    want = [i for i in range(total) if i not in ex]
+                    for form in EXCLUDE_FORMS:
+                        exf = exclude_form(ex, form, r)
+                        if exf is None:
+                            continue
+                        d2 = dict(desc, exclude_form=form)
+                        # one defect, one key: containers numpy cannot look into (np.isin wraps them as a 0-d object array) are one class
+                        fc = 'hash-container' if form in HASH_CONTAINERS else form
+                        with ctx.guard(f'C18/hex/form:exclude={fc}', d2):
+                            ap = Hex(x, y, rings, d, gap, segment_angle=angle, exclude=exf)
+                            ids = [int(i) for i in ap.segment_ids]
+                            ok = ctx.require('form.hex-exclude', ids == want and len(ap.windows) == len(want) == len(ap.local_masks)
+                                             == len(ap.local_coords), f'C18/hex/form:exclude={fc}',
+                                             f'with exclude given as a {form} the aperture does not consist of '
+                                             'exactly the segments whose id is not excluded', d2, got=ids[:24], want=want[:24])
+                            if ok:
+                                _same_hex(ctx, 'form.hex-exclude', ap, ref, f'C18/hex/form:exclude={fc}',
+                                          f'with exclude given as a {form} the aperture differs from the one built with the sorted tuple', d2)
+                                cover = _scatter(x.shape, ap.windows, ap.local_masks)
+                                ctx.require('hex.no-overlap', int((cover > 1).sum()) == 0, f'C18/hex/form:exclude={fc}/overlap',
+                                            'a sample belongs to two segments', d2)
+                                ctx.require('hex.amp==union', np.array_equal(cover > 0, np.asarray(ap.amp) != 0),
+                                            f'C18/hex/form:exclude={fc}/amp!=union', 'amp is not the union of the segment masks', d2)
+                                # all_centers[k] is the centre of segment_ids[k] (the documentation zips the two lists)
+                                ctx.observe('form.hex-exclude')
+                                ca = [tuple(float(v) for v in c) for c in ap.all_centers]
+                                c0 = [tuple(float(v) for v in c) for c in ref.all_centers]
+                                if ca != c0:
+                                    ring_excluded = len([i for i in ex if i >= 1])
+                                    mech = ('all_centers-lists-excluded-segments' if len(ca) == len(c0) + ring_excluded and
+                                            all(c in ca for c in c0) else 'all_centers-differ')
+                                    ctx.violation(f'C18/hex/form:exclude={fc}/{mech}', f'with exclude given as a {form}, all_centers is not '
+                                                  'the list of the centres of segment_ids (as it is for the sorted tuple)'
+                                                  + (': it also lists the centres of the excluded ring segments' if 'lists' in mech else ''),
+                                                  d2, n_centres=len(ca), n_segments=len(ids))
+    # ---- scalar / grid forms of the other constructor arguments
+    k = -1
+    for rep in range(ctx.pick(1, 10)):
+        for (n0, n1) in grids:
+            for rings in (1, 2, 3):
+                k += 1
+                sub = ctx.subseed(rng)
+                if not ctx.mine(k):
+                    continue
+                r = np.random.default_rng(sub)
+                dx = [1 / 8, 1 / 32, 1 / 4][int(r.integers(3))]
+                gap = snap(float(r.uniform(0.5, 3.0)) * dx, dx / 8)
+                d = snap(float(r.uniform(0.6, 0.97)) * (min(n0, n1) * dx) / (2 * rings + 1) - gap, dx / 8)
+                if d < 6 * dx:
+                    ctx.skip('hex: segment smaller than 6 samples for this grid/ring count (not generated)')
+                    continue
+                angle = [90, 0][k % 2]
+                ex = (0,) if k % 3 else tuple(sorted(set([0, int(r.integers(1, sh.hex_count(rings)))])))
+                x, y = grid(n0, n1, dx)
+                desc = {'wl': 'form-hex-args', 'grid': (n0, n1), 'dx': dx, 'rings': rings, 'segment_diameter': d, 'segment_separation': gap,
+                        'segment_angle': angle, 'exclude': list(ex), 'seed': sub, 'class': f'form:hex:args:rings={rings}:angle={angle}'}
+                ctx.case(desc)
+                with ctx.guard('C18/hex', desc):
+                    ref = Hex(x, y, rings, d, gap, segment_angle=angle, exclude=ex)
+                    variants = []
+                    for f in INT_FORMS[1:]:
+                        variants.append((f'rings={f}', lambda f=f: Hex(x, y, scalar_form(rings, f), d, gap, segment_angle=angle, exclude=ex), False))
+                    for f in SCALAR_FORMS[1:]:
+                        # a float32 scalar may legitimately pull vertex arithmetic into single precision: compared off the edge
+                        variants.append((f'segment_diameter={f}', lambda f=f: Hex(x, y, rings, scalar_form(d, f), gap, segment_angle=angle, exclude=ex), 'float32' in f))
+                        variants.append((f'segment_separation={f}', lambda f=f: Hex(x, y, rings, d, scalar_form(gap, f), segment_angle=angle, exclude=ex), 'float32' in f))
+                    for f in ('python-float', 'numpy-float64', 'numpy-int64', 'numpy-float32'):
+                        variants.append((f'segment_angle={f}', lambda f=f: Hex(x, y, rings, d, gap, segment_angle=scalar_form(angle, f), exclude=ex), 'float32' in f))
+                    variants.append(('call=all-keywords', lambda: Hex(x=x, y=y, rings=rings, segment_diameter=d, segment_separation=gap,
+                                                                       segment_angle=angle, exclude=ex), False))
+                    variants.append(('call=all-positional', lambda: Hex(x, y, rings, d, gap, angle, ex), False))
+                    variants.append(('x,y=F-order', lambda: Hex(np.asfortranarray(x), np.asfortranarray(y), rings, d, gap, segment_angle=angle, exclude=ex), False))
+                    variants.append(('x,y=strided-view', lambda: Hex(_lay(x, 'strided-slice'), _lay(y, 'strided-slice'), rings, d, gap, segment_angle=angle, exclude=ex), False))
+                    variants.append(('x,y=read-only', lambda: Hex(_ro(x), _ro(y), rings, d, gap, segment_angle=angle, exclude=ex), False))
+                    variants.append(('x,y=float32', lambda: Hex(x.astype(np.float32), y.astype(np.float32), rings, d, gap, segment_angle=angle, exclude=ex), True))
+                    # omitted optional arguments == the documented defaults (segment_angle=90, every segment included), also
+                    # right after a call that passed other values
+                    ref_def = Hex(x, y, rings, d, gap, segment_angle=90, exclude=())
+                    Hex(x, y, rings, d, gap, segment_angle=0, exclude=(1,))
+                    with ctx.guard('C18/hex/form:segment_angle,exclude=omitted', desc):
+                        _same_hex(ctx, 'form.hex-args', Hex(x, y, rings, d, gap), ref_def, 'C18/hex/form:segment_angle,exclude=omitted',
+                                  'CompositeHexagonalAperture without segment_angle / exclude differs from segment_angle=90, exclude=() '
+                                  '(the documented defaults)', desc)
+                    for label, make, band_only in variants:
+                        d2 = dict(desc, form=label)
+                        with ctx.guard(f'C18/hex/form:{label}', d2):
+                            _same_hex(ctx, 'form.hex-args', make(), ref, f'C18/hex/form:{label}',
+                                      f'CompositeHexagonalAperture with {label} differs from the canonical call with the same values', d2,
+                                      band_only=band_only)
+
+
+def _ro(a):
+    b = a.copy()
+    b.setflags(write=False)
+    return b
+
+
+def _forms_keystone(ctx, Key, rng):
+    grids = [(96, 96), (97, 97), (128, 129)] + ([] if ctx.quick else [(160, 160), (201, 201), (256, 257)])
+    k = -1
+    for rep in range(ctx.pick(2, 16)):
+        for (n0, n1) in grids:
+            for rings in (1, 2, 3):
+                k += 1
+                sub = ctx.subseed(rng)
+                if not ctx.mine(k):
+                    continue
+                r = np.random.default_rng(sub)
+                dx = [1 / 16, 1 / 64, 1 / 4][int(r.integers(3))]
+                q = dx / 8
+                half = min(n0, n1) * dx / 2
+                fill = float(r.uniform(0.7, 0.95))
+                ccd = snap(float(r.uniform(0.2, 0.4)) * 2 * half * fill, q)
+                rgap = snap(float(r.uniform(0.5, 2.5)) * dx, q)
+                ring_w = snap((half * fill - ccd / 2) / rings - rgap, q)
+                if ring_w < 5 * dx:
+                    ctx.skip('keystone: ring narrower than 5 samples for this grid/ring count (not generated)')
+                    continue
+                spr = [int(r.integers(2, 9)) * (j + 1) if r.random() < 0.5 else int(r.integers(2, 13)) for j in range(rings)]
+                wts = r.uniform(0.7, 1.3, rings)
+                rr = [snap(v, q) for v in ring_w * rings * wts / wts.sum()]
+                rot = [float(snap(v, 1 / 4)) for v in r.uniform(0, 180, rings)]
+                agap = snap(float(r.uniform(0.5, 1.9)) * rgap, q)
+                x, y = grid(n0, n1, dx)
+                base = dict(center_circle_diameter=ccd, rings=rings, ring_radius=rr, segments_per_ring=spr, radial_gap=rgap,
+                            azimuthal_gap=agap, rotation_per_ring=rot)
+                desc = {'wl': 'form-keystone', 'grid': (n0, n1), 'dx': dx, 'seed': sub, 'class': f'form:keystone:rings={rings}', **base}
+                ctx.case(desc)
+
+                def mk(**kw):
+                    return Key(x, y, **dict(base, **kw))
+                with ctx.guard('C18/keystone', desc):
+                    ref = mk()
+                    ctx.require('keystone.count', len(ref.segment_ids) == sum(spr), 'C18/keystone/segment-count',
+                                'number of keystone segments != sum(segments_per_ring)', desc, got=len(ref.segment_ids), want=sum(spr))
+                    uni = dict(ring_radius=rr[0], segments_per_ring=spr[0], rotation_per_ring=rot[0])      # the scalar forms
+                    ref_u = mk(**uni)
+                    ref_none = mk(rotation_per_ring=None)
+                    ref_ag = mk(azimuthal_gap=None)
+                    variants = []
+                    for f in SEQ_FORMS:
+                        variants.append((f'segments_per_ring={f}', lambda f=f: mk(segments_per_ring=seq_form(spr, f)), ref))
+                        variants.append((f'ring_radius={f}', lambda f=f: mk(ring_radius=seq_form(rr, f)), ref))
+                        variants.append((f'rotation_per_ring={f}', lambda f=f: mk(rotation_per_ring=seq_form(rot, f)), ref))
+                    steps = {b - a for a, b in zip(spr, spr[1:])}
+                    if len(spr) == 1 or (len(steps) == 1 and min(steps) > 0):
+                        step = steps.pop() if steps else 1
+                        variants.append(('segments_per_ring=range', lambda: mk(segments_per_ring=range(spr[0], spr[-1] + 1, step)), ref))
+                    variants.append(('ring_radius=ndarray-float32', lambda: mk(ring_radius=np.array(rr, dtype=np.float32)), ref))
+                    variants.append(('segments_per_ring=ndarray-int32', lambda: mk(segments_per_ring=np.array(spr, dtype=np.int32)), ref))
+                    variants.append(('segments_per_ring=ndarray-uint8', lambda: mk(segments_per_ring=np.array(spr, dtype=np.uint8)), ref))
+                    variants.append(('rotation_per_ring=list-of-ints', lambda: mk(rotation_per_ring=[int(v) for v in rot]),
+                                     mk(rotation_per_ring=[float(int(v)) for v in rot])))
+                    variants.append(('rotation_per_ring=list-of-None', lambda: mk(rotation_per_ring=[None] * rings), ref_none))
+                    variants.append(('rotation_per_ring=omitted', lambda: Key(x, y, ccd, rings, rr, spr, rgap, agap), ref_none))
+                    variants.append(('azimuthal_gap=omitted', lambda: Key(x, y, ccd, rings, rr, spr, rgap, rotation_per_ring=rot), ref_ag))
+                    variants.append(('azimuthal_gap=radial_gap-explicit', lambda: mk(azimuthal_gap=rgap), ref_ag))
+                    variants.append(('call=all-positional', lambda: Key(x, y, ccd, rings, rr, spr, rgap, agap, rot), ref))
+                    variants.append(('call=all-keywords', lambda: Key(x=x, y=y, **base), ref))
+                    for f in INT_FORMS[1:]:
+                        variants.append((f'rings={f}', lambda f=f: mk(rings=scalar_form(rings, f)), ref))
+                        variants.append((f'segments_per_ring=scalar:{f}', lambda f=f: mk(**dict(uni, segments_per_ring=scalar_form(spr[0], f))), ref_u))
+                    for f in SCALAR_FORMS[1:]:
+                        if f != '0d-float64':
+                            variants.append((f'ring_radius=scalar:{f}', lambda f=f: mk(**dict(uni, ring_radius=scalar_form(rr[0], f))), ref_u))
+                            variants.append((f'rotation_per_ring=scalar:{f}', lambda f=f: mk(**dict(uni, rotation_per_ring=scalar_form(rot[0], f))), ref_u))
+                        if f != '0d-float64':       # a 0-d array for radial_gap raises today: out of domain
+                            variants.append((f'radial_gap={f}', lambda f=f: mk(radial_gap=scalar_form(rgap, f)), ref))
+                        variants.append((f'azimuthal_gap={f}', lambda f=f: mk(azimuthal_gap=scalar_form(agap, f)), ref))
+                        variants.append((f'center_circle_diameter={f}', lambda f=f: mk(center_circle_diameter=scalar_form(ccd, f)), ref))
+                    variants.append(('rotation_per_ring=scalar:python-int', lambda: mk(**dict(uni, rotation_per_ring=int(rot[0]))),
+                                     mk(**dict(uni, rotation_per_ring=float(int(rot[0]))))))
+                    variants.append(('x,y=F-order', lambda: Key(np.asfortranarray(x), np.asfortranarray(y), **base), ref))
+                    variants.append(('x,y=strided-view', lambda: Key(_lay(x, 'strided-slice'), _lay(y, 'strided-slice'), **base), ref))
+                    variants.append(('x,y=read-only', lambda: Key(_ro(x), _ro(y), **base), ref))
+                    variants.append(('x,y=float32', lambda: Key(x.astype(np.float32), y.astype(np.float32), **base), 'band'))
+                    # the per-ring lists are the caller's: a constructor must not consume / change them
+                    spr_l, rr_l, rot_l = list(spr), list(rr), list(rot)
+                    variants.append(('lists-reused-by-a-second-constructor',
+                                     lambda: (Key(x, y, ccd, rings, rr_l, spr_l, rgap, agap, rot_l), Key(x, y, ccd, rings, rr_l, spr_l, rgap, agap, rot_l))[1], ref))
+                    rot_n = [None] * rings
+                    spr_other = [n + 1 + j for j, n in enumerate(spr)]
+                    variants.append(('rotation_per_ring=list-of-None-reused-with-other-segments_per_ring',
+                                     lambda: (Key(x, y, ccd, rings, rr, spr_other, rgap, agap, rot_n), Key(x, y, ccd, rings, rr, spr, rgap, agap, rot_n))[1],
+                                     ref_none))
+                    for label, make, want in variants:
+                        d2 = dict(desc, form=label)
+                        with ctx.guard(f'C18/keystone/form:{label}', d2):
+                            band_only = isinstance(want, str)
+                            _same_keystone(ctx, 'form.keystone-args', make(), ref if band_only else want, f'C18/keystone/form:{label}',
+                                           f'CompositeKeystoneAperture with {label} differs from the canonical call with the same values', d2,
+                                           band_only=band_only)
+                    ctx.require('form.keystone-args', spr_l == list(spr) and rr_l == list(rr) and rot_l == list(rot) and rot_n == [None] * rings,
+                                'C18/keystone/form:lists-modified', 'the constructor changed the caller\'s per-ring lists', desc)
+
+
+ANGLE_STEPS = list(range(-16, 17))        # multiples of 45 degrees in [-720, 720]
+
+
+def _forms_primitives(ctx, g, rng):
+    """Scalar, angle and centre forms of the primitives; the analytic contracts judge every call, and every form must give
+    the mask of the canonical (python float / tuple) form off the rasterised edge."""
+    sizes = [(32, 33), (48, 48), (65, 40)] + ([] if ctx.quick else [(96, 97), (128, 128), (129, 200)])
+    k = -1
+    for rep in range(ctx.pick(1, 12)):
+        for (n0, n1) in sizes:
+            # ---- every multiple of 45 degrees, as int / float / numpy scalars, for every primitive with an angle
+            for step in ANGLE_STEPS:
+                k += 1
+                sub = ctx.subseed(rng)
+                if not ctx.mine(k):
+                    continue
+                r = np.random.default_rng(sub)
+                dx = 1 / 16
+                x, y = grid(n0, n1, dx)
+                half = min(n0, n1) * dx / 2
+                ang = 45 * step
+                cls = 'multiple-of-180' if ang % 180 == 0 else 'multiple-of-90' if ang % 90 == 0 else 'multiple-of-45'
+                sign = 'negative' if ang < 0 else 'positive' if ang > 0 else 'zero'
+                desc = {'wl': 'form-angle', 'grid': (n0, n1), 'dx': dx, 'angle': ang, 'seed': sub, 'class': f'form:angle:{cls}:{sign}'}
+                ctx.case(desc)
+                w = (int(r.integers(3, int(half / dx) - 2)) + 0.37) * dx
+                h = w * float(r.uniform(0.3, 0.8))
+                c = (float(r.uniform(-0.3, 0.3)) * half, float(r.uniform(-0.3, 0.3)) * half)
+                sides = int(r.integers(3, 9))
+                vanes = int(r.integers(1, 7))
+                vw = float(r.uniform(1.5, 4)) * dx
+                calls = {
+                    'rectangle': lambda a: g.rectangle(w, x, y, height=h, angle=a),
+                    'rotated_ellipse': lambda a: g.rotated_ellipse(w, h, x, y, major_axis_angle=a),
+                    'regular_polygon': lambda a: g.regular_polygon(sides, w, x, y, center=c, rotation=a),
+                    'spider': lambda a: g.spider(vanes, vw, x, y, rotation=a, center=c),
+                    'spider-rad': lambda a: g.spider(vanes, vw, x, y, rotation=np.radians(a) if not isinstance(a, int) else math.radians(a),
+                                                     center=c, rotation_is_rad=True),
+                }
+                for name, call in calls.items():
+                    prim = name.split('-')[0]
+                    d2 = dict(desc, prim=name)
+                    with ctx.guard(f'C18/{prim}/form:angle={cls}', d2):
+                        ref = np.asarray(call(float(ang))) != 0
+                        band = _edge_band(ref)
+                        forms = {'python-int': int(ang), 'numpy-float64': np.float64(ang), 'numpy-int64': np.int64(ang),
+                                 'numpy-float32': np.float32(ang), '0d-float64': np.array(float(ang))}
+                        for f, a in forms.items():
+                            if name == 'spider-rad' and f in ('numpy-float32', 'numpy-int64'):
+                                continue          # radians of these are not the same number
+                            ctx.observe('form.angle')
+                            m = np.asarray(call(a)) != 0
+                            if m.shape != ref.shape or ((m != ref) & ~band).any():
+                                ctx.violation(f'C18/{prim}/form:angle={f}/{cls}', f'{name} with the angle given as a {f} differs from the '
+                                              'same angle as a python float (off the rasterised edge)', dict(d2, angle_form=f))
+                        # the shape turned by angle and by angle +- 360 is the same shape
+                        for off in (360, -360):
+                            ctx.observe('form.angle')
+                            m = np.asarray(call(float(ang + off))) != 0
+                            if ((m != ref) & ~band).any():
+                                ctx.violation(f'C18/{prim}/form:angle+360/{cls}', f'{name} turned by angle and by angle {off:+d} degrees '
+                                              'differ (off the rasterised edge)', dict(d2, offset=off))
+            # ---- size / count / centre forms
+            for prim in ('circle', 'annulus', 'offset_circle', 'regular_polygon', 'rectangle', 'rotated_ellipse', 'spider'):
+                k += 1
+                sub = ctx.subseed(rng)
+                if not ctx.mine(k):
+                    continue
+                r = np.random.default_rng(sub)
+                dx = 1 / 16
+                x, y = grid(n0, n1, dx)
+                rr = np.hypot(x, y)
+                half = min(n0, n1) * dx / 2
+                desc = {'wl': 'form-primitive-args', 'prim': prim, 'grid': (n0, n1), 'dx': dx, 'seed': sub, 'class': f'form:primitive:{prim}'}
+                ctx.case(desc)
+                R = snap(float(r.uniform(0.4, 0.9)) * half, dx / 8) + dx / 16        # float32-exact, off the grid lines
+                R2 = snap(R * float(r.uniform(0.3, 0.8)), dx / 8) + dx / 16
+                c = (snap(float(r.uniform(0.05, 0.3)) * half, dx / 8), -snap(float(r.uniform(0.05, 0.3)) * half, dx / 8))
+                sides, vanes = int(r.integers(3, 10)), int(r.integers(1, 7))
+                rot = [0.0, 30.0, -75.0, 90.0][int(r.integers(4))]
+                S = scalar_form
+                variants = []
+                if prim == 'circle':
+                    canon = lambda: g.circle(R, rr)
+                    variants = [(f'radius={f}', lambda f=f: g.circle(S(R, f), rr)) for f in SCALAR_FORMS[1:]]
+                    variants += [('call=keywords', lambda: g.circle(radius=R, r=rr)), ('radius=python-int', None)]
+                elif prim == 'annulus':
+                    canon = lambda: g.annulus(R2, R, rr)
+                    variants = [(f'rin,rout={f}', lambda f=f: g.annulus(S(R2, f), S(R, f), rr)) for f in SCALAR_FORMS[1:]]
+                    variants += [('call=keywords', lambda: g.annulus(rin=R2, rout=R, r=rr))]
+                elif prim == 'offset_circle':
+                    canon = lambda: g.offset_circle(R2, x, y, c)
+                    variants = [(f'radius={f}', lambda f=f: g.offset_circle(S(R2, f), x, y, c)) for f in SCALAR_FORMS[1:]]
+                    variants += [(f'center={f}', lambda f=f: g.offset_circle(R2, x, y, seq_form(c, f))) for f in SEQ_FORMS]
+                    variants += [('center=ndarray-float32', lambda: g.offset_circle(R2, x, y, np.array(c, dtype=np.float32))),
+                                 ('call=keywords', lambda: g.offset_circle(radius=R2, x=x, y=y, center=c)),
+                                 ('x,y=1d', lambda: g.offset_circle(R2, x[0, :].copy(), y[:, 0].copy(), c)),
+                                 ('x,y=row+column', lambda: g.offset_circle(R2, x[:1, :].copy(), y[:, :1].copy(), c))]
+                elif prim == 'regular_polygon':
+                    canon = lambda: g.regular_polygon(sides, R, x, y, center=c, rotation=rot)
+                    variants = [(f'radius={f}', lambda f=f: g.regular_polygon(sides, S(R, f), x, y, center=c, rotation=rot)) for f in SCALAR_FORMS[1:]]
+                    variants += [(f'sides={f}', lambda f=f: g.regular_polygon(S(sides, f), R, x, y, center=c, rotation=rot)) for f in INT_FORMS[1:]]
+                    variants += [(f'center={f}', lambda f=f: g.regular_polygon(sides, R, x, y, center=seq_form(c, f), rotation=rot)) for f in SEQ_FORMS]
+                    variants += [('call=all-positional', lambda: g.regular_polygon(sides, R, x, y, c, rot)),
+                                 ('call=all-keywords', lambda: g.regular_polygon(sides=sides, radius=R, x=x, y=y, center=c, rotation=rot))]
+                elif prim == 'rectangle':
+                    canon = lambda: g.rectangle(R, x, y, height=R2, angle=rot)
+                    variants = [(f'width,height={f}', lambda f=f: g.rectangle(S(R, f), x, y, height=S(R2, f), angle=rot)) for f in SCALAR_FORMS[1:]]
+                    variants += [('call=all-positional', lambda: g.rectangle(R, x, y, R2, rot)),
+                                 ('call=all-keywords', lambda: g.rectangle(width=R, x=x, y=y, height=R2, angle=rot))]
+                elif prim == 'rotated_ellipse':
+                    canon = lambda: g.rotated_ellipse(R, R2, x, y, major_axis_angle=rot)
+                    variants = [(f'widths={f}', lambda f=f: g.rotated_ellipse(S(R, f), S(R2, f), x, y, major_axis_angle=rot)) for f in SCALAR_FORMS[1:]]
+                    variants += [('call=all-positional', lambda: g.rotated_ellipse(R, R2, x, y, rot)),
+                                 ('call=all-keywords', lambda: g.rotated_ellipse(width_major=R, width_minor=R2, x=x, y=y, major_axis_angle=rot))]
+                else:
+                    vw = snap(float(r.uniform(1.5, 5)) * dx, dx / 8) + dx / 16
+                    canon = lambda: g.spider(vanes, vw, x, y, rotation=rot, center=c)
+                    variants = [(f'width={f}', lambda f=f: g.spider(vanes, S(vw, f), x, y, rotation=rot, center=c)) for f in SCALAR_FORMS[1:]]
+                    variants += [(f'vanes={f}', lambda f=f: g.spider(S(vanes, f), vw, x, y, rotation=rot, center=c)) for f in INT_FORMS[1:]]
+                    variants += [(f'center={f}', lambda f=f: g.spider(vanes, vw, x, y, rotation=rot, center=seq_form(c, f))) for f in SEQ_FORMS]
+                    variants += [('call=all-positional', lambda: g.spider(vanes, vw, x, y, rot, c, False)),
+                                 ('rotation_is_rad=omitted', lambda: (g.spider(vanes, vw, x, y, math.radians(rot), c, True), g.spider(vanes, vw, x, y, rot, c))[1]),
+                                 ('call=all-keywords', lambda: g.spider(vanes=vanes, width=vw, x=x, y=y, rotation=rot, center=c, rotation_is_rad=False))]
+                with ctx.guard(f'C18/{prim}', desc):
+                    ref = np.asarray(canon()) != 0
+                    band = _edge_band(ref)
+                    for label, make in variants:
+                        if make is None:
+                            continue
+                        d2 = dict(desc, form=label)
+                        with ctx.guard(f'C18/{prim}/form:{label}', d2):
+                            ctx.observe('form.primitive-args')
+                            m = np.asarray(make()) != 0
+                            if m.shape != ref.shape or ((m != ref) & ~band).any():
+                                ctx.violation(f'C18/{prim}/form:{label}', f'{prim} with {label} gives a different mask than the canonical '
+                                              'call with the same values (off the rasterised edge)', d2,
+                                              got_shape=list(m.shape), want_shape=list(ref.shape))
+                    # integer-valued sizes: python int == float
+                    Ri = float(max(1, int(half * 0.7)))
+                    if prim in ('circle', 'rectangle', 'regular_polygon') and Ri >= 1:
+                        pair = {'circle': (lambda v: g.circle(v, rr)), 'rectangle': (lambda v: g.rectangle(v, x, y, angle=rot)),
+                                'regular_polygon': (lambda v: g.regular_polygon(sides, v, x, y, rotation=rot))}[prim]
+                        a, b = np.asarray(pair(Ri)) != 0, np.asarray(pair(int(Ri))) != 0
+                        ctx.observe('form.primitive-args')
+                        if a.shape != b.shape or ((a != b) & ~_edge_band(a)).any():
+                            ctx.violation(f'C18/{prim}/form:size=python-int', f'{prim} with an integer size differs from the same size as a float',
+                                          dict(desc, size=Ri))
+
+
+# =========================================================================================== class F: foreign traffic
+def _run_foreign(ctx):
+    """Other public consumers of the helpers the primitives and apertures share (cart_to_polar, polar_to_cart,
+    optimize_xy_separable, make_xy_grid, config.precision) run first with hostile arguments — grids they return are edited in
+    place, the same calls under precision 32, polynomial bases evaluated on the very grid objects — then primitives and one
+    aperture of each family are judged as usual."""
+    from prysm import coordinates, geometry as g
+    from prysm.segmented import CompositeHexagonalAperture as Hex, CompositeKeystoneAperture as Key
+    from ..util import precision
+    rng = ctx.rng('c18-foreign')
+    prims = ['circle', 'annulus', 'offset_circle', 'regular_polygon', 'rectangle', 'rotated_ellipse', 'spider']
+    sizes = [(64, 64), (65, 80), (97, 96)] + ([] if ctx.quick else [(128, 129), (200, 160), (257, 257)])
+    k = -1
+    for rep in range(ctx.pick(1, 24)):
+        for (n0, n1) in sizes:
+            for hostile in ('grids-edited-in-place', 'precision-32-consumers', 'polynomials-on-the-same-grids'):
+                k += 1
+                sub = ctx.subseed(rng)
+                if not ctx.mine(k):
+                    continue
+                r = np.random.default_rng(sub)
+                dx = [2.0, 1.0, 0.3][int(r.integers(3))] / max(n0, n1)
+                x, y = grid(n0, n1, dx)           # ONE grid: the prelude and everything judged afterwards use these values
+                desc = {'wl': 'foreign', 'grid': (n0, n1), 'dx': dx, 'prelude': hostile, 'seed': sub, 'class': f'foreign:{hostile}'}
+                ctx.case(desc)
+                ctx.observe('foreign.cases')
+                try:
+                    _foreign_prelude(hostile, coordinates, g, precision, x, y, dx, r)
+                except Exception as e:
+                    ctx.skip(f'foreign prelude raised {type(e).__name__}')
+                tctx = Tagged(ctx, f'/after-foreign:{hostile}')
+                with driving(tctx, wl='foreign:' + hostile):
+                    half = min(n0, n1) * dx / 2
+                    # echo: the helper calls of the prelude, now made by the primitives themselves (origin-centred, unrotated
+                    # spider -> polar_to_cart(hypot, arctan2); rotated rectangle / keystone -> cart_to_polar(x, y)); the
+                    # analytic contracts judge them
+                    d1 = dict(desc, echo=True)
+                    with tctx.guard('C18/spider', d1):
+                        g.spider(int(r.integers(1, 7)), float(r.uniform(1.5, 5)) * dx, x, y)
+                    with tctx.guard('C18/rectangle', d1):
+                        g.rectangle(0.5 * half, x, y, height=0.3 * half, angle=float(r.uniform(5, 85)))
+                        g.rectangle(0.45 * half, x, y, height=0.3 * half)
+                    with tctx.guard('C18/offset_circle', d1):
+                        g.offset_circle(0.6 * half, x, y, (0.0, 0.0))
+                        g.offset_circle(0.4 * half, x, y, (dx, -2 * dx))
+                    with tctx.guard('C18/circle', d1):
+                        g.circle(0.7 * half, np.hypot(x, y))
+                    for prim in prims:
+                        base = {'wl': 'foreign', 'prelude': hostile, 'prim': prim, 'grid': (n0, n1), 'dx': dx, 'seed': sub}
+                        _primitive_case(tctx, g, r, prim, x, y, n0, n1, dx, half, base)
+                    rings = 1 + k % 2
+                    geo = _hex_geometry(r, n0, n1, rings)
+                    if geo is not None:
+                        dxh, d, gap = geo
+                        d, gap = d * dx / dxh, gap * dx / dxh
+                        excl = _exclusion(r, ['random', 'centre'][k % 2], sh.hex_count(rings))
+                        d2 = dict(desc, rings=rings, segment_diameter=d, segment_separation=gap, segment_angle=90, exclude=list(excl),
+                                  **{'class': f'foreign:{hostile}:hex'})
+                        with tctx.guard('C18/hex', d2):
+                            ap = Hex(x, y, rings, d, gap, segment_angle=90, exclude=list(excl) if k % 3 == 0 else excl)
+                            _check_hex(tctx, ap, r, x, y, dx, rings, d, gap, 90, excl, d2)
+                    geo = _keystone_geometry(r, n0, n1, rings)
+                    if geo is not None:
+                        dxk, kw = geo
+                        kw = {k2: (v * dx / dxk if k2 in ('center_circle_diameter', 'ring_radius', 'radial_gap') or
+                                   (k2 == 'azimuthal_gap' and v is not None) else v) for k2, v in kw.items()}
+                        d2 = dict(desc, kclass='', **kw)
+                        d2['class'] = f'foreign:{hostile}:keystone'
+                        with tctx.guard('C18/keystone', d2):
+                            ap = Key(x, y, **kw)
+                            agap = kw['radial_gap'] if kw['azimuthal_gap'] is None else kw['azimuthal_gap']
+                            _check_keystone(tctx, ap, r, x, y, dx, kw['center_circle_diameter'], rings, [kw['ring_radius']] * rings,
+                                            list(kw['segments_per_ring']), kw['radial_gap'], agap, d2)
+
+
+def _foreign_prelude(hostile, coordinates, g, precision, x, y, dx, r):
+    from prysm._richdata import RichData
+    shape = x.shape
+    if hostile == 'grids-edited-in-place':
+        for kw in ({'dx': dx}, {'diameter': dx * shape[1]}, {'dx': dx, 'grid': False}):
+            gx, gy = coordinates.make_xy_grid(shape, **kw)
+            gx[...] = 9.0
+            gy[...] = -9.0
+        rr, tt = coordinates.cart_to_polar(x.copy(), y.copy())
+        rr[...] = 0.0
+        tt += 1.0
+        for c0 in ((0.0, 0.0), (dx, -2 * dx)):
+            rr, tt = coordinates.cart_to_polar(x - c0[0], y - c0[1])
+            xx, yy = coordinates.polar_to_cart(rr, tt)
+            xx[...] = 0.0
+            yy[...] = 0.0
+            rr[...] = 0.0
+            tt[...] = 0.0
+        rr, tt = coordinates.cart_to_polar(x[0, :].copy(), y[:, 0].copy())
+        rr *= 0.0
+        xx, yy = coordinates.polar_to_cart(np.hypot(x, y), np.arctan2(y, x))
+        xx[...] = 0.0
+        yy[...] = 0.0
+        ox, oy = coordinates.optimize_xy_separable(x.copy(), y.copy())
+        ox[...] = 1.0
+        oy[...] = 1.0
+        g.gaussian(dx * 5, x[0, :].copy(), y[:, 0].copy(), center=(dx, -dx))
+        c = RichData(r.random(shape), dx, 0.5)
+        c.x[...] = 1.0
+        c.r[...] = 2.0
+        c.t[...] = 3.0
+    elif hostile == 'precision-32-consumers':
+        with precision(32):
+            gx, gy = coordinates.make_xy_grid(shape, dx=dx)
+            rr, tt = coordinates.cart_to_polar(gx, gy)
+            coordinates.polar_to_cart(rr, tt)
+            g.regular_polygon(6, dx * 10, gx, gy, rotation=30)
+            g.regular_polygon(5, dx * 10, x, y, center=(dx, dx))
+            g.spider(3, dx * 2, gx, gy, rotation=10)
+            g.rectangle(dx * 8, gx, gy, angle=20)
+            g.gaussian(dx * 5, gx, gy)
+    else:
+        from prysm.polynomials import zernike_nm_seq, xy_seq, hopkins
+        rr, tt = coordinates.cart_to_polar(x, y)
+        rn = rr / float(rr.max())
+        for m in zernike_nm_seq([(2, 0), (3, 1), (4, 4)], rn, tt):
+            m *= 0.0
+        for m in xy_seq([(1, 0), (2, 1)], x / float(np.abs(x).max()), y / float(np.abs(y).max())):
+            m += 1.0
+        hopkins(1, 1, 1, rn, tt, 0.5)
+        tt += np.pi
+        rn *= 2.0
+
+
 # =========================================================================================== run
 def run(ctx):
     global CTX
@@ -1603,6 +2309,8 @@ def run(ctx):
         _run_opd_histories(ctx)
         _run_opd_args(ctx)
         _run_regimes(ctx)
+        _run_forms(ctx)
+        _run_foreign(ctx)
         ctx.note('rotation_sense', {k: ('+' if v > 0 else '-') for k, v in SENSE.items()})
     finally:
         detach_all()
